@@ -13,7 +13,7 @@ MC = {   # property -> [(module, cfg)] per tier
     "C09": dict(quick=[("MC_BS1.tla", "MC_BS1_c09.cfg")], thorough=[("MC_BS1.tla", "MC_BS1_c09_thorough.cfg")]),
     "C10": dict(quick=[("MC_BS1.tla", "MC_BS1_c10.cfg")], thorough=[("MC_BS1.tla", "MC_BS1_c10_thorough.cfg")]),
     "C11": dict(quick=[("MC_BS1.tla", "MC_BS1_c11.cfg")], thorough=[("MC_BS1.tla", "MC_BS1_c11_thorough.cfg")]),
-    "C12": dict(quick=[("MC_BS2.tla", "MC_BS2_quick.cfg")], thorough=[("MC_BS2.tla", "MC_BS2_thorough.cfg")]),
+    "C12": dict(quick=[("MC_BS2.tla", "MC_BS2_quick.cfg"), ("MC_BS5.tla", "MC_BS5_quick.cfg")], thorough=[("MC_BS2.tla", "MC_BS2_thorough.cfg"), ("MC_BS5.tla", "MC_BS5_thorough.cfg")]),
     "C14": dict(quick=[("MC_BS3.tla", "MC_BS3_quick.cfg")], thorough=[("MC_BS3.tla", "MC_BS3_thorough.cfg")]),
 }
 NCASES = dict(quick=320, thorough=4000)
